@@ -637,10 +637,10 @@ var malformed = []string{
 
 func (p *prop) Generate(rng *core.Rand, tier string, emit func(string)) {
 	p.setup()
-	nScen, maxCfgs, storms, stormLen := 45, 5, 1, 40
+	nScen, maxCfgs, storms, stormLen := 40, 5, 1, 40
 	switch tier {
 	case "thorough":
-		nScen, maxCfgs, storms, stormLen = 500, 8, 6, 200
+		nScen, maxCfgs, storms, stormLen = 200, 7, 3, 150
 	case "search":
 		nScen, maxCfgs, storms, stormLen = 120, 6, 3, 80
 	}
